@@ -23,6 +23,8 @@ def run(ctx):
     strs = list(gens.delimiter_strings(L))
     strs += gens.structured_urls(ctx.rng, 6000 if ctx.quick else 60000)
     strs += gens.soup_urls(ctx.rng, 3000 if ctx.quick else 40000)
+    strs += [f["witness"][0][1][1] for f in ctx.findings if f.get("witness")]
+    strs += ["foo://user@host:0/p?q#f", "http://u:p@h:0", "//:p@h:0/", "http://u@[::1]:0/", "x://u:@h:00", "http://u@h:65535", "http://@h:1"]
     strs += gens.leading_runs(["http://u:p@h:8/p?q#f", "//h/p", "a:b", "/p?q", "HTTP://H"], 2 if ctx.quick else 3)
     reqs = []
     for s in strs:
@@ -37,4 +39,5 @@ def run(ctx):
             ok = core.eval_pred(ctx, pred, args)
             core.record_failures(ctx, "SU-constructor", pred, ok,
                                  lambda m, k=k, off=off: {"backend": k, "input": strs[m], "input_codepoints": [ord(c) for c in strs[m]],
-                                                          "mode": "encoded=True" if off else "auto", "impl": outs[k][2 * m + off]})
+                                                          "mode": "encoded=True" if off else "auto", "impl": outs[k][2 * m + off]},
+                                 kf=core.kf_list(ctx), arglines=args)
